@@ -13,9 +13,14 @@
 //!    recognised by connections that have not yet sent their first command;
 //!  * sync `write_block.lua` fan-out (`publish_block_on_all_nodes`): add-only
 //!    `verif-hooks` events (Started/AboutToRecv/Received/Finished).
-//! Real time only guards against hangs (hard timeouts => retry => machinery
-//! failure) and against the redis client's own 500 ms response timer (worlds
-//! older than a few 100 ms are rebuilt by the caller before that timer can fire).
+//! Real time never decides anything: every replica runtime runs on a *frozen*
+//! tokio clock (`start_paused` + auto-advance inhibited by a parked
+//! `spawn_blocking` task), so neither the adapter's `timeout(node_timeout, ..)`
+//! nor the redis client's built-in 500 ms response / 1 s connect timers can
+//! fire; the only effect of those timers is a periodic spurious park cycle,
+//! which the "reply consumed" test (SIOCOUTQ == 0 on the explorer's end of the
+//! socket) makes harmless. Hard timeouts only guard against hangs (=> retry =>
+//! machinery failure).
 
 use crate::{
     lua::{self, Script},
@@ -40,7 +45,6 @@ use std::{
     },
     path::PathBuf,
     sync::{atomic::AtomicU64, mpsc, Arc, Condvar, Mutex, OnceLock},
-    thread::JoinHandle,
     time::{Duration, Instant},
 };
 
@@ -75,6 +79,7 @@ pub struct Cfg {
     pub max_epoch: u64,
     pub max_crashes: u32,
     pub allow_release: bool,
+    pub allow_sync: bool,
 }
 
 #[derive(Clone, Copy, Debug, Serialize, Deserialize, PartialEq, Eq)]
@@ -99,6 +104,8 @@ pub enum Op {
     Restart(usize),
     Release(usize),
     WipeNode(usize),
+    /// replica r imports the next block from a peer that already committed it (P2P sync)
+    Sync(usize),
 }
 
 // ---------------------------------------------------------------------------
@@ -156,10 +163,12 @@ pub enum OpOut {
 }
 
 enum Cmd {
+    Adopt { cfg: Cfg, urls: Vec<String>, shared: Arc<Shared>, boot: mpsc::SyncSender<Result<Arc<Adapter>, String>> },
     LeaderState(u32),
     Publish(Box<SealedBlock>),
     Release,
-    Shutdown,
+    /// the incarnation is over (crash / teardown); the worker goes back to the pool
+    Retire,
 }
 
 #[derive(Default, Debug)]
@@ -194,6 +203,9 @@ impl Shared {
             g = self.cv.wait_timeout(g, deadline - now).unwrap().0;
         }
     }
+    fn peek<T>(&self, f: impl FnOnce(&Sh) -> T) -> T {
+        f(&self.m.lock().unwrap())
+    }
     fn with<T>(&self, f: impl FnOnce(&mut Sh) -> T) -> T {
         let mut g = self.m.lock().unwrap();
         let t = f(&mut g);
@@ -224,47 +236,131 @@ fn registry() -> &'static Mutex<HashMap<String, Arc<Shared>>> {
     })
 }
 
-fn replica_thread(cfg: Cfg, urls: Vec<String>, shared: Arc<Shared>, rx: mpsc::Receiver<Cmd>, boot: mpsc::SyncSender<Result<Arc<Adapter>, String>>) {
-    let (s1, s2) = (shared.clone(), shared.clone());
+/// Pooled replica worker: one OS thread + one frozen-clock current-thread
+/// runtime, reused by successive replica incarnations (thread creation is by
+/// far the most expensive step of building a world in this sandbox).
+#[derive(Clone)]
+struct Worker {
+    tx: mpsc::Sender<Cmd>,
+}
+
+type Slot = Arc<Mutex<Option<Arc<Shared>>>>;
+
+pub static WORKERS_CREATED: AtomicU64 = AtomicU64::new(0);
+pub static WORKERS_DISCARDED: AtomicU64 = AtomicU64::new(0);
+
+fn pool() -> &'static Mutex<Vec<Worker>> {
+    static P: OnceLock<Mutex<Vec<Worker>>> = OnceLock::new();
+    P.get_or_init(|| Mutex::new(Vec::new()))
+}
+
+fn take_worker() -> Res<Worker> {
+    if let Some(w) = pool().lock().unwrap().pop() {
+        return Ok(w);
+    }
+    WORKERS_CREATED.fetch_add(1, std::sync::atomic::Ordering::Relaxed);
+    let (tx, rx) = mpsc::channel();
+    let me = Worker { tx: tx.clone() };
+    std::thread::Builder::new()
+        .name("replica-worker".into())
+        .stack_size(1 << 20)
+        .spawn(move || worker_thread(me, rx))
+        .map_err(|e| Interf(format!("spawn: {e}")))?;
+    Ok(Worker { tx })
+}
+
+fn worker_thread(me: Worker, rx: mpsc::Receiver<Cmd>) {
+    let slot: Slot = Arc::new(Mutex::new(None));
+    let (s1, s2) = (slot.clone(), slot.clone());
+    let current = |s: &Slot| s.lock().unwrap().clone();
     let rt = tokio::runtime::Builder::new_current_thread()
         .enable_all()
-        .on_thread_park(move || s1.with(|s| s.parks += 1))
-        .on_thread_unpark(move || s2.with(|s| s.unparks += 1))
+        .on_thread_park(move || {
+            if let Some(sh) = current(&s1) {
+                sh.with(|s| s.parks += 1)
+            }
+        })
+        .on_thread_unpark(move || {
+            if let Some(sh) = current(&s2) {
+                sh.with(|s| s.unparks += 1)
+            }
+        })
+        .start_paused(true)
         .build()
         .expect("tokio runtime");
-    let adapter = match Adapter::new(urls, LEASE_KEY.to_string(), LONG, LONG, Duration::ZERO, Duration::ZERO, 1, cfg.stream_max_len) {
-        Ok(a) => Arc::new(a.with_quorum_disruption_budget(cfg.budget)),
-        Err(e) => {
-            let _ = boot.send(Err(format!("{e}")));
-            return;
-        }
-    };
-    let token = adapter.verif_lease_owner_token().to_string();
-    registry().lock().unwrap().insert(token.clone(), shared.clone());
-    let _ = boot.send(Ok(adapter.clone()));
+    // an outstanding blocking task inhibits the paused clock's auto-advance: time stands still
+    let (_freeze_tx, freeze_rx) = mpsc::channel::<()>();
+    let _freezer = rt.spawn_blocking(move || {
+        let _ = freeze_rx.recv();
+    });
+    let mut cur: Option<(Arc<Adapter>, Arc<Shared>, String)> = None;
     while let Ok(cmd) = rx.recv() {
         let out = match cmd {
-            Cmd::LeaderState(h) => match rt.block_on(adapter.leader_state(h.into())) {
-                Ok(LeaderState::ReconciledFollower) => OpOut::Follower,
-                Ok(LeaderState::ReconciledLeader) => OpOut::Leader,
-                Ok(LeaderState::UnreconciledBlocks(b)) => OpOut::Unreconciled(b),
-                Err(e) => OpOut::LsErr(format!("{e}")),
-            },
-            // the importer calls this synchronously, outside any of the adapter's own async code
-            Cmd::Publish(b) => match adapter.publish_produced_block(&b) {
-                Ok(()) => OpOut::PublishOk,
-                Err(e) => OpOut::PublishErr(format!("{e}")),
-            },
-            Cmd::Release => OpOut::Released(rt.block_on(adapter.release()).map_err(|e| format!("{e}"))),
-            Cmd::Shutdown => break,
+            Cmd::Adopt { cfg, urls, shared, boot } => {
+                match Adapter::new(urls, LEASE_KEY.to_string(), LONG, LONG, Duration::ZERO, Duration::ZERO, 1, cfg.stream_max_len) {
+                    Ok(a) => {
+                        let a = Arc::new(a.with_quorum_disruption_budget(cfg.budget));
+                        let token = a.verif_lease_owner_token().to_string();
+                        registry().lock().unwrap().insert(token.clone(), shared.clone());
+                        *slot.lock().unwrap() = Some(shared.clone());
+                        cur = Some((a.clone(), shared, token));
+                        let _ = boot.send(Ok(a));
+                    }
+                    Err(e) => {
+                        let _ = boot.send(Err(format!("{e}")));
+                    }
+                }
+                continue;
+            }
+            Cmd::Retire => {
+                *slot.lock().unwrap() = None;
+                if let Some((adapter, _, token)) = cur.take() {
+                    registry().lock().unwrap().remove(&token);
+                    // Every socket of this replica is closed and unlinked by now: the
+                    // lease release in `Drop` cannot reach any node (a crash releases nothing).
+                    drop(adapter);
+                }
+                // let the connection tasks of the retired adapter observe EOF and end
+                let mut clean = false;
+                for _ in 0..500 {
+                    if rt.metrics().num_alive_tasks() == 0 {
+                        clean = true;
+                        break;
+                    }
+                    rt.block_on(async { tokio::task::yield_now().await });
+                }
+                if clean && pool().lock().unwrap().len() < 256 {
+                    pool().lock().unwrap().push(me.clone());
+                    continue;
+                }
+                WORKERS_DISCARDED.fetch_add(1, std::sync::atomic::Ordering::Relaxed);
+                // leave the runtime (and its freezer thread) behind rather than block on it
+                std::mem::forget(rt);
+                return;
+            }
+            op => {
+                let Some((adapter, _, _)) = cur.as_ref() else { machinery("operation sent to a worker without adapter".into()) };
+                match op {
+                    Cmd::LeaderState(h) => match rt.block_on(adapter.leader_state(h.into())) {
+                        Ok(LeaderState::ReconciledFollower) => OpOut::Follower,
+                        Ok(LeaderState::ReconciledLeader) => OpOut::Leader,
+                        Ok(LeaderState::UnreconciledBlocks(b)) => OpOut::Unreconciled(b),
+                        Err(e) => OpOut::LsErr(format!("{e}")),
+                    },
+                    // the importer calls this synchronously, outside any of the adapter's own async code
+                    Cmd::Publish(b) => match adapter.publish_produced_block(&b) {
+                        Ok(()) => OpOut::PublishOk,
+                        Err(e) => OpOut::PublishErr(format!("{e}")),
+                    },
+                    Cmd::Release => OpOut::Released(rt.block_on(adapter.release()).map_err(|e| format!("{e}"))),
+                    Cmd::Adopt { .. } | Cmd::Retire => unreachable!(),
+                }
+            }
         };
-        shared.with(|s| s.done = Some(out));
+        if let Some((_, shared, _)) = cur.as_ref() {
+            shared.with(|s| s.done = Some(out));
+        }
     }
-    registry().lock().unwrap().remove(&token);
-    // By now every socket of this replica is closed and unlinked: the lease
-    // release in `Drop` cannot reach any node (a crash releases nothing).
-    drop(adapter);
-    drop(rt);
 }
 
 // ---------------------------------------------------------------------------
@@ -293,7 +389,6 @@ pub struct Call {
     pub r: usize,
     pub n: usize,
     conn: u64,
-    pub kind: Kind,
     sha: String,
     keys: Vec<Vec<u8>>,
     argv: Vec<Vec<u8>>,
@@ -313,7 +408,6 @@ pub struct Ghost {
 struct Live {
     shared: Arc<Shared>,
     tx: mpsc::Sender<Cmd>,
-    join: Option<JoinHandle<()>>,
     adapter: Option<Arc<Adapter>>,
     links: Vec<Link>,
     seen_pub_started: u64,
@@ -367,7 +461,6 @@ pub struct Blocks {
 
 pub struct World {
     pub cfg: Cfg,
-    born: Instant,
     dir: PathBuf,
     pub nodes: Vec<Node>,
     pub reps: Vec<Replica>,
@@ -378,6 +471,8 @@ pub struct World {
     tokens: HashMap<Vec<u8>, String>,
     pub wipes: u32,
     pub crashes: u32,
+    /// replica whose operation is in progress (for counting preemptive context switches)
+    pub cur: Option<usize>,
     pub quorum: usize,
     prev_epoch: Vec<u64>,
     obs: Vec<String>,
@@ -408,6 +503,17 @@ fn poll_readable(fd: i32, what: &str) -> Res<()> {
             return Err(Interf(format!("poll failed while waiting for {what}")));
         }
     }
+}
+
+/// Bytes written to `fd` that the peer has not read yet (SIOCOUTQ).
+fn unread_by_peer(fd: i32) -> i32 {
+    let mut n: libc::c_int = 0;
+    // SAFETY: SIOCOUTQ/TIOCOUTQ writes one int.
+    let rc = unsafe { libc::ioctl(fd, libc::TIOCOUTQ, &mut n) };
+    if rc != 0 {
+        machinery("SIOCOUTQ is not available on Unix sockets here".into());
+    }
+    n
 }
 
 impl Conn {
@@ -460,7 +566,6 @@ impl World {
         let dir = std::env::temp_dir().join(format!("vhr-{}-{}", std::process::id(), seq));
         std::fs::create_dir_all(&dir).map_err(|e| Interf(format!("mkdir: {e}")))?;
         let mut w = World {
-            born: Instant::now(),
             dir,
             nodes: (0..cfg.nodes).map(|_| Node::new(cfg.exact_trim)).collect(),
             reps: vec![],
@@ -471,6 +576,7 @@ impl World {
             tokens: HashMap::new(),
             wipes: 0,
             crashes: 0,
+            cur: None,
             quorum: 0,
             prev_epoch: vec![0; cfg.nodes],
             obs: vec![],
@@ -482,10 +588,6 @@ impl World {
             w.spawn(r)?;
         }
         Ok(w)
-    }
-
-    pub fn age(&self) -> Duration {
-        self.born.elapsed()
     }
 
     fn spawn(&mut self, r: usize) -> Res<()> {
@@ -500,15 +602,10 @@ impl World {
             links.push(Link { path, listener, conns: vec![] });
         }
         let shared = Arc::new(Shared { m: Mutex::new(Sh::default()), cv: Condvar::new() });
-        let (tx, rx) = mpsc::channel();
         let (btx, brx) = mpsc::sync_channel(1);
-        let cfg = self.cfg.clone();
-        let sh = shared.clone();
-        let join = std::thread::Builder::new()
-            .name(format!("replica-{r}"))
-            .stack_size(1 << 20)
-            .spawn(move || replica_thread(cfg, urls, sh, rx, btx))
-            .map_err(|e| Interf(format!("spawn: {e}")))?;
+        let worker = take_worker()?;
+        let tx = worker.tx.clone();
+        tx.send(Cmd::Adopt { cfg: self.cfg.clone(), urls, shared: shared.clone(), boot: btx }).map_err(|_| Interf("worker gone".into()))?;
         let adapter = match brx.recv_timeout(HARD_TIMEOUT) {
             Ok(Ok(a)) => a,
             Ok(Err(e)) => machinery(format!("adapter construction failed: {e}")),
@@ -516,7 +613,7 @@ impl World {
         };
         self.tokens.insert(adapter.verif_lease_owner_token().as_bytes().to_vec(), format!("r{r}.{inc}"));
         self.quorum = adapter.verif_quorum();
-        self.reps[r].live = Some(Live { shared, tx, join: Some(join), adapter: Some(adapter), links, seen_pub_started: 0 });
+        self.reps[r].live = Some(Live { shared, tx, adapter: Some(adapter), links, seen_pub_started: 0 });
         self.reps[r].phase = Phase::Idle;
         self.reps[r].oplog.clear();
         Ok(())
@@ -626,6 +723,9 @@ impl World {
                 Phase::ReadyToCommit(_) | Phase::ReadyToImport(_) => v.push(Op::Commit(r)),
                 _ => {}
             }
+            if rep.phase == Phase::Idle && self.cfg.allow_sync && self.sync_source(r).is_some() {
+                v.push(Op::Sync(r));
+            }
         }
         v.extend(faults);
         let lock = LEASE_KEY.as_bytes();
@@ -659,15 +759,62 @@ impl World {
 
     fn is_orphan(&self, c: &Call) -> bool {
         match (c.sync_pub, self.reps[c.r].live.as_ref()) {
-            (Some(seq), Some(l)) => l.shared.with(|s| s.pub_finished >= seq),
+            (Some(seq), Some(l)) => l.shared.peek(|s| s.pub_finished >= seq),
             _ => false,
         }
     }
 
     /// Apply one letter to the real adapters / MiniRedis. Returns the observation.
+    /// The replica that acts in `op` (None: environment letter, incl. the late
+    /// execution of a straggler/ghost call nobody waits for).
+    fn actor(&self, op: &Op) -> Option<usize> {
+        match op {
+            Op::Tick(r) | Op::Commit(r) | Op::Release(r) | Op::Sync(r) => Some(*r),
+            Op::Exec { r, n, k, .. } => {
+                let c = self.queue.iter().filter(|c| c.r == *r && c.n == *n).nth(*k)?;
+                (!self.is_orphan(c)).then_some(*r)
+            }
+            _ => None,
+        }
+    }
+
+    /// Does `op` switch to another replica while the current one is in the middle of an operation?
+    pub fn is_preemption(&self, op: &Op) -> bool {
+        match (self.cur, self.actor(op)) {
+            (Some(c), Some(a)) => c != a && matches!(self.reps[c].phase, Phase::Busy(_)),
+            _ => false,
+        }
+    }
+
+    fn sync_source(&self, r: usize) -> Option<String> {
+        let h = self.last_height(r) + 1;
+        self.reps.iter().enumerate().filter(|(i, _)| *i != r).find_map(|(_, o)| o.db.get(&h).cloned())
+    }
+
     pub fn apply(&mut self, op: &Op) -> Res<String> {
+        let actor = self.actor(op);
+        let res = self.apply_inner(op);
+        if let Some(a) = actor {
+            self.cur = Some(a);
+        }
+        if let Some(c) = self.cur {
+            if !matches!(self.reps[c].phase, Phase::Busy(_)) {
+                self.cur = None;
+            }
+        }
+        res
+    }
+
+    fn apply_inner(&mut self, op: &Op) -> Res<String> {
         self.obs.clear();
         match op {
+            Op::Sync(r) => {
+                let r = *r;
+                let tag = self.sync_source(r).unwrap_or_else(|| machinery(format!("Sync({r}) without source")));
+                let h = self.tag_height(&tag);
+                self.obs.push("p2p".into());
+                self.commit(r, h, tag);
+            }
             Op::Tick(r) => {
                 let r = *r;
                 if self.reps[r].phase != Phase::Idle {
@@ -782,7 +929,7 @@ impl World {
     }
 
     fn parks(&self, r: usize) -> u64 {
-        self.reps[r].live.as_ref().unwrap().shared.with(|s| s.parks)
+        self.reps[r].live.as_ref().unwrap().shared.peek(|s| s.parks)
     }
 
     fn start(&mut self, r: usize, cmd: Cmd, busy: Busy) -> Res<()> {
@@ -790,14 +937,15 @@ impl World {
         self.reps[r].oplog.clear();
         self.reps[r].phase = Phase::Busy(busy);
         self.reps[r].live.as_ref().unwrap().tx.send(cmd).map_err(|_| Interf("replica thread gone".into()))?;
-        self.drive(r, p0)
+        self.drive(r, p0, None)
     }
 
     /// Let replica r run until it needs the explorer again (or its operation,
     /// including the follow-ups MainTask/importer perform without pausing, is over).
-    fn drive(&mut self, r: usize, mut p0: u64) -> Res<()> {
+    fn drive(&mut self, r: usize, mut p0: u64, mut wrote: Option<i32>) -> Res<()> {
         loop {
-            let out = match self.settle(r, p0)? {
+            let settled = self.settle(r, p0, wrote.take())?;
+            let out = match settled {
                 Settled::Waiting => return Ok(()),
                 Settled::Done(out) => out,
             };
@@ -814,6 +962,7 @@ impl World {
                     self.obs.push(format!("r{r}: leader, produces {tag}@{h}"));
                     let block = self.blocks.by_tag[&tag].clone();
                     p0 = self.parks(r);
+                    self.reps[r].oplog.clear();
                     self.reps[r].phase = Phase::Busy(Busy::Publish(tag));
                     self.reps[r].live.as_ref().unwrap().tx.send(Cmd::Publish(Box::new(block))).map_err(|_| Interf("replica thread gone".into()))?;
                 }
@@ -840,6 +989,7 @@ impl World {
                     // importer returns the error, the block is not committed, MainTask releases the lease
                     self.obs.push(format!("r{r}: publish of {tag} failed: {}", brief(&e)));
                     p0 = self.parks(r);
+                    self.reps[r].oplog.clear();
                     self.reps[r].phase = Phase::Busy(Busy::ReleaseAfterFailedPublish);
                     self.reps[r].live.as_ref().unwrap().tx.send(Cmd::Release).map_err(|_| Interf("replica thread gone".into()))?;
                 }
@@ -853,7 +1003,9 @@ impl World {
         }
     }
 
-    fn settle(&mut self, r: usize, mut p0: u64) -> Res<Settled> {
+    /// `wrote`: the explorer's end of the connection it has just written one reply
+    /// to; the replica counts as parked again only once that reply was consumed.
+    fn settle(&mut self, r: usize, mut p0: u64, mut wrote: Option<i32>) -> Res<Settled> {
         enum Ev {
             Done(OpOut),
             Pub(u64, usize),
@@ -869,7 +1021,7 @@ impl World {
                     Some(Ev::Done(o))
                 } else if s.pub_started > seen {
                     Some(Ev::Pub(s.pub_started, s.pub_nodes))
-                } else if s.parks > p0 && s.parks == s.unparks + 1 {
+                } else if s.parks > p0 && s.parks == s.unparks + 1 && wrote.map_or(true, |fd| unread_by_peer(fd) == 0) {
                     Some(Ev::Parked(s.parks))
                 } else {
                     None
@@ -886,18 +1038,22 @@ impl World {
                     shared.wait("publish collector to block", |s| (s.pub_about == s.pub_recv + 1).then_some(()))?;
                     return Ok(Settled::Waiting);
                 }
-                Ev::Parked(p) => match self.scan_async(r)? {
-                    Scan::Fresh => p0 = p,
-                    Scan::Handshake(n, cid) => {
-                        let l = self.reps[r].live.as_mut().unwrap();
-                        let c = l.links[n].conns.iter_mut().find(|c| c.id == cid).unwrap();
-                        let bytes = b"+OK\r\n".repeat(c.pending_hs);
-                        c.pending_hs = 0;
-                        c.send(&bytes)?;
-                        p0 = p;
+                Ev::Parked(p) => {
+                    wrote = None;
+                    match self.scan_async(r)? {
+                        Scan::Fresh => p0 = p,
+                        Scan::Handshake(n, cid) => {
+                            let l = self.reps[r].live.as_mut().unwrap();
+                            let c = l.links[n].conns.iter_mut().find(|c| c.id == cid).unwrap();
+                            let bytes = b"+OK\r\n".repeat(c.pending_hs);
+                            c.pending_hs = 0;
+                            c.send(&bytes)?;
+                            wrote = Some(c.stream.as_raw_fd());
+                            p0 = p;
+                        }
+                        Scan::Quiet => return Ok(Settled::Waiting),
                     }
-                    Scan::Quiet => return Ok(Settled::Waiting),
-                },
+                }
             }
         }
     }
@@ -911,7 +1067,10 @@ impl World {
         let keys = cmd[3..3 + nk].to_vec();
         let argv = cmd[3 + nk..].to_vec();
         let desc = self.describe(*kind, &argv);
-        self.queue.push(Call { r, n, conn, kind: *kind, sha, keys, argv, sync_pub, desc });
+        if *kind == Kind::Write && matches!(self.reps[r].phase, Phase::Busy(Busy::LeaderState(_))) {
+            self.obs.push(format!("r{r}: repair-write to n{n}"));
+        }
+        self.queue.push(Call { r, n, conn, sha, keys, argv, sync_pub, desc });
     }
 
     /// The runtime thread of replica r is parked: collect what its async connections sent.
@@ -1032,10 +1191,11 @@ impl World {
                 let l = self.reps[r].live.as_mut().unwrap();
                 let c = l.links[n].conns.iter_mut().find(|c| c.id == call.conn).unwrap_or_else(|| machinery("connection of a queued call vanished".into()));
                 c.send(&bytes)?;
-                self.drive(r, p0)
+                let fd = c.stream.as_raw_fd();
+                self.drive(r, p0, Some(fd))
             }
             Some(seq) => {
-                let (active, recv0, p0) = shared.with(|s| (s.pub_finished < seq, s.pub_recv, s.parks));
+                let (active, recv0, p0) = shared.peek(|s| (s.pub_finished < seq, s.pub_recv, s.parks));
                 {
                     let l = self.reps[r].live.as_mut().unwrap();
                     let pos = l.links[n].conns.iter().position(|c| c.id == call.conn).unwrap_or_else(|| machinery("connection of a queued call vanished".into()));
@@ -1068,7 +1228,7 @@ impl World {
                     }
                 })?;
                 if finished {
-                    self.drive(r, p0)
+                    self.drive(r, p0, None)
                 } else {
                     Ok(())
                 }
@@ -1090,22 +1250,14 @@ impl World {
             let _ = std::fs::remove_file(&l.path);
             drop(l);
         }
-        let busy = matches!(self.reps[r].phase, Phase::Busy(_));
         self.reps[r].phase = Phase::Down;
         self.reps[r].oplog.clear();
-        let mut res = Ok(());
-        if busy {
-            // every pending and future request of the dying process fails locally
-            res = live.shared.wait("crashed replica to unwind", |s| s.done.take().map(|_| ()));
-        }
+        // Every pending and future request of the dying incarnation now fails locally
+        // (no socket is left); whatever it still does cannot reach a node, so nobody
+        // waits for it: the worker unwinds the operation in flight, then retires.
         live.adapter = None;
-        let _ = live.tx.send(Cmd::Shutdown);
-        if res.is_ok() {
-            if let Some(j) = live.join.take() {
-                let _ = j.join();
-            }
-        }
-        res
+        let _ = live.tx.send(Cmd::Retire);
+        Ok(())
     }
 
     // ----- canonical state ---------------------------------------------------
@@ -1116,7 +1268,10 @@ impl World {
             s += &format!("N{n}:{:?}/{}/{:?}|", self.lock_owner(n), self.node_epoch(n), self.stream(n));
         }
         for (r, rep) in self.reps.iter().enumerate() {
-            s += &format!("R{r}:i{}/{:?}/{:?}/p{}/e{:?}/{:?}|", rep.inc, rep.phase, rep.db, rep.produced, self.epoch_token(r), rep.oplog);
+            // join_all / the publish collector index replies by node, not by arrival order
+            let mut oplog = if matches!(rep.phase, Phase::Busy(_)) { rep.oplog.clone() } else { vec![] };
+            oplog.sort();
+            s += &format!("R{r}:i{}/{:?}/{:?}/p{}/e{:?}/{:?}|", rep.inc, rep.phase, rep.db, rep.produced, self.epoch_token(r), oplog);
         }
         // queued calls: order inside one (replica, node) lane matters, lanes are independent
         let mut lanes: BTreeMap<(usize, usize), Vec<String>> = BTreeMap::new();
@@ -1126,11 +1281,35 @@ impl World {
         s += &format!("Q{lanes:?}|");
         let mut g: Vec<String> = self.ghosts.iter().map(|g| format!("n{}{}", g.n, g.desc)).collect();
         g.sort();
-        s += &format!("G{g:?}|w{}c{}", self.wipes, self.crashes);
+        s += &format!("G{g:?}|w{}c{}cur{:?}", self.wipes, self.crashes, self.cur);
         s.into_bytes()
     }
 
     // ----- oracles: the statement of C25 ------------------------------------
+
+    /// Structural class of a fork/duplicate at height `h` (part of the violation signature).
+    fn cause(&self, h: u32) -> &'static str {
+        let hs = h.to_string();
+        let mut dup = false;
+        for n in 0..self.cfg.nodes {
+            let st = self.stream(n);
+            let at: Vec<usize> = st.iter().enumerate().filter(|(_, e)| e.0 == hs).map(|(i, _)| i).collect();
+            let tags: BTreeSet<&String> = at.iter().map(|i| &st[*i].1).collect();
+            if tags.len() > 1 {
+                dup = true;
+                let (first, last) = (at[0], *at.last().unwrap());
+                let inverted = st[first..last].iter().any(|e| e.0.parse::<u32>().map(|x| x < h).unwrap_or(false));
+                if inverted {
+                    return "two-blocks-on-one-node-after-lower-height-was-appended-later";
+                }
+            }
+        }
+        if dup {
+            "two-blocks-on-one-node"
+        } else {
+            "no-node-holds-two-blocks"
+        }
+    }
 
     pub fn check(&mut self) -> Result<(), mcx::Violation> {
         // NoFork: no two replicas commit different blocks at the same height
@@ -1144,7 +1323,7 @@ impl World {
             if tags.len() > 1 {
                 let dbs: Vec<_> = self.reps.iter().map(|r| &r.db).collect();
                 return Err(mcx::viol(
-                    "C25:NoFork",
+                    format!("C25:NoFork:{}", self.cause(*h)),
                     format!("expected: every replica that committed height {h} committed the same block; observed: {tags:?} (local DBs {dbs:?}, streams {:?})", self.streams()),
                 ));
             }
@@ -1169,7 +1348,7 @@ impl World {
         for (h, ts) in &quorate {
             if ts.len() > 1 {
                 return Err(mcx::viol(
-                    "C25:QuorumUnique",
+                    format!("C25:QuorumUnique:{}", self.cause(h.parse().unwrap_or(0))),
                     format!("expected: at most one block at height {h} on >= {} nodes; observed: {ts:?} (streams {:?})", self.quorum, self.streams()),
                 ));
             }
